@@ -1,11 +1,67 @@
-(* C01 — exact inference computes the distribution semantics (statements only). *)
+(* C01 — exact inference computes the distribution semantics.
+   Sem.prob (coq/theories/Sem/Sem.v) is the specification: sum over total choices of the weight of the
+   choice times the truth of the query in the well-founded model of the induced normal program,
+   conditioned on the evidence.  Only statements here; proofs in Sem/WMCProofs.v, Sem/StratProofs.v. *)
 From Coq Require Import NArith QArith List Bool.
-From PL.Sem Require Import Program Sem.
+From PL.Sem Require Import Program Sem SemBasics PermProofs StratProofs WMC WMCProofs.
 Import ListNotations.
+
+(* ad_encoding: the exactly-one constraint over the k head variables plus the extra "none" variable, with
+   positive literal weights p_1..p_k, 1 - sum p and negative literal weights 1 (constraint.py ConstraintAD),
+   summed over ALL 2^(k+1) assignments, is the categorical distribution over {h_1..h_k, none}. *)
+Theorem C01_ad_encoding : forall (hs : list (Q * gatom)) (g : option gatom -> Q),
+  wmc_ad gatom hs g == lsum hs (fun h => g (Some h)) + (1 - sum_p hs) * g None.
+Proof. exact (ad_encoding gatom). Qed.
+Print Assumptions C01_ad_encoding.
+
+(* the weighted model count over the choice variables of all ground AD instances equals the
+   possible-world sum of the semantics, for every world valuation F *)
+Theorem C01_wmc_is_world_sum : forall F cs acc, wmc gatom F cs acc == wsum gatom F cs acc.
+Proof. exact (wmc_wsum gatom). Qed.
+Print Assumptions C01_wmc_is_world_sum.
+
+(* conditional_def: whenever the semantics answers p, then WMC(evidence) <> 0 and p = WMC(q /\ e) / WMC(e) *)
+Theorem C01_conditional_def : forall cs ev q p,
+  prob_gen gatom gatom_eqb cs ev q = Ok p ->
+  let U := universe gatom gatom_eqb cs in
+  let we := wmc gatom (ind_true gatom gatom_eqb U (fun T => holds gatom gatom_eqb T ev)) cs [] in
+  let wqe := wmc gatom (ind_true gatom gatom_eqb U (fun T => mem gatom gatom_eqb q T && holds gatom gatom_eqb T ev)) cs [] in
+  ~ we == 0 /\ p == wqe / we.
+Proof. exact (conditional_def gatom gatom_eqb). Qed.
+Print Assumptions C01_conditional_def.
+
+(* a program is declared Inconsistent only when the weighted model count of the evidence is 0 *)
+Theorem C01_inconsistent_def : forall cs ev q,
+  prob_gen gatom gatom_eqb cs ev q = Inconsistent ->
+  wmc gatom (ind_true gatom gatom_eqb (universe gatom gatom_eqb cs) (fun T => holds gatom gatom_eqb T ev)) cs [] == 0.
+Proof. exact (inconsistent_def gatom gatom_eqb). Qed.
+Print Assumptions C01_inconsistent_def.
+
+(* on the fragment of the property (no cycle through negation) the semantics never answers NotTwoValued:
+   the well-founded model of every world is total, i.e. it is the unique stable / perfect model *)
+Theorem C01_fragment_total : forall cs ev q,
+  neg_cycle_free gatom gatom_eqb cs = Some true -> prob_gen gatom gatom_eqb cs ev q <> NotTwoValued.
+Proof. exact (neg_cycle_free_not_NotTwoValued gatom gatom_eqb gatom_eqb_spec). Qed.
+Print Assumptions C01_fragment_total.
+
+(* FULL STATEMENT of DESIGN C01, NOT proved (the theorems above are the part `C01_pipeline_correct_partial`):
+     C01_pipeline_correct : forall P q, wf_program P -> stratified P -> infer_m P q = Sem.prob P q
+   where infer_m = normalize_m . wmc_m . clark_m . break_cycles_m . ground_m mirrors the code's stages.
+   Proved here: the last two stages at the level of choice variables (AD encoding + conditioning = ratio).
+   Missing stage lemmas: ground_m_sound (relevant and-or graph = instantiated program), C09_break_cycles,
+   C09_clark (owned by the C09 slice), and the composition.  C01_unreported_zero / C01_inconsistent on the
+   pipeline model are consequently not stated.  The real pipeline is tied to Sem.prob by the differential
+   check of harness/props/C01.py on every run. *)
 
 (* non-vacuity: 0.3::a. 0.5::b :- a. c :- b, \+a.  query(b) | evidence(c,false) *)
 Example C01_example :
   gprob (mkG [AD [(3#10, (1%N, []))] []; AD [(1#2, (2%N, []))] [Pos (1%N, [])];
               Rule (3%N, []) [Pos (2%N, []); Neg (1%N, [])]] [(2%N, [])] [((3%N, []), false)])
         (2%N, []) = Ok (3#20).
+Proof. vm_compute. reflexivity. Qed.
+
+(* the WMC over 2 + 3 choice variables of a two-AD program, computed literally *)
+Example C01_example_wmc :
+  wmc gatom (fun acc => if existsb (fun r => gatom_eqb (fst r) (2%N, [])) acc then 1 else 0)
+      [AD [(3#10, (1%N, []))] []; AD [(1#2, (2%N, [])); (1#4, (3%N, []))] []] [] == 1#2.
 Proof. vm_compute. reflexivity. Qed.
